@@ -22,16 +22,25 @@ theorem FitsP1.bound {B p : Nat} (hB : 2 ≤ B) {r : Dashu.Model.Float.FRepr} (h
     exact lt_of_lt_of_le h1 (by exact_mod_cast h2)
   exact_mod_cast this
 
-/-- comparison of two arithmetic results of precisions `pa`, `pb` is the order of their values -/
+/-- `FitsP1` at a precision below the clamp of case 4 (`isize::MAX`) gives the memory bound for free -/
+theorem FitsP1.mem_of_le {B p : Nat} {r : Dashu.Model.Float.FRepr} (hp : p ≤ cmpIsizeMax) (h : FitsP1 B p r) :
+    FitsP1 B cmpIsizeMax r := by
+  unfold FitsP1 at *; omega
+
+/-- comparison of two arithmetic results of precisions `pa`, `pb` is the order of their values.
+    `hma`/`hmb` ("at most 2^63 digits") are the Nat/usize gap of the model: since /repo ee43486 the code clamps the
+    precisions to `isize::MAX` before the shortcut; they follow from `ha`/`hb` whenever the precision is `≤ isize::MAX`
+    (`FitsP1.mem_of_le`), and a longer significand does not fit a 64-bit address space. -/
 theorem reprCmp_of_fits (B : Nat) (hB : 2 ≤ B) (digitsUb : Int → Nat)
     (hub : ∀ s : Int, s.natAbs < B ^ digitsUb s) (a b : Dashu.Model.Float.FRepr) (pa pb : Nat)
-    (ha : FitsP1 B pa a) (hb : FitsP1 B pb b) :
+    (ha : FitsP1 B pa a) (hb : FitsP1 B pb b)
+    (hma : FitsP1 B cmpIsizeMax a) (hmb : FitsP1 B cmpIsizeMax b) :
     reprCmpSameBase B digitsUb (ofFloatRepr a) (ofFloatRepr b) (some (pa, pb))
       = specFCmp B (ofFloatRepr a) (ofFloatRepr b) := by
   apply reprCmpSameBase_spec B hB digitsUb hub
   intro lp rp h
   cases h
-  exact ⟨fun _ => ha.bound hB, fun _ => hb.bound hB⟩
+  exact ⟨fun _ => fits_min B _ _ (ha.bound hB) (hma.bound hB), fun _ => fits_min B _ _ (hb.bound hB) (hmb.bound hB)⟩
 
 
 -- ================================================================== producers return the canonical representation
